@@ -22,6 +22,7 @@ func init() {
 
 func runC08(p *eng.Prog, r *eng.Report, tier string) {
 	c := &cx{p, r, tier}
+	r17ReaderHandsOnTheDecodersError(c, "C08.27")
 	// C08.21 (= C09.17 / C10.10): no cycle in the lock-order graph: a deadlock between a
 	// writer and Close, or between the serve loop and a requester, ends every guarantee of this property
 	lockOrder(c, "C08.21")
